@@ -175,7 +175,8 @@ where
             Kind::Star => AnyPlanner::Star(RRTStar::new(p.maxd, p.bias, p.radius, &cfg)),
             Kind::Conn => AnyPlanner::Conn(RRTConnect::new(p.maxd, p.bias, &cfg)),
             Kind::Prm => AnyPlanner::Prm(PRM::new(
-                p.build_ticks as f64 / 1000.0,
+                // (probe encodings of a degenerate build time: u64::MAX = NaN, u64::MAX - 1 = -1 s)
+                if p.build_ticks == u64::MAX { f64::NAN } else if p.build_ticks == u64::MAX - 1 { -1.0 } else { p.build_ticks as f64 / 1000.0 },
                 p.radius,
                 &cfg,
             )),
@@ -359,7 +360,7 @@ where
             l.ctl.query_cap = cfg.query_cap;
             let budget = match call {
                 Call::Solve(t) => *t,
-                Call::Construct => params.build_ticks,
+                Call::Construct => if params.build_ticks >= u64::MAX - 1 { 5 } else { params.build_ticks },
                 _ => 0,
             };
             l.ctl.sample_cap = if cfg.wallclock {
